@@ -45,7 +45,7 @@ TEXTS.update({
  "C14": _t("rapid property tests; status-code schedule vs reference model over whole cycles (differential with the parameter-free response); traffic StateAt vs own cyclic expansion, HTTP up/down",
            EXPL_NOTE + "Every segment over >= 4 cycles is requested; a miss must be byte-identical to the plain response.",
            TRUST + " slow/hang states only in the thorough tier with one-sided timing.", "DESIGN.md §7 C14"),
- "C18": _t("rapid property test; model parser written from the statement; metamorphic over read partitions; fault injection (read/callback errors, truncation, corrupt sizes)",
+ "C18": _t("rapid property test; model parser written from the statement; metamorphic over read partitions; fault injection (read/callback errors, truncation, corrupt sizes); thorough tier adds a native coverage-guided fuzz target (FuzzC18) with the same oracle",
            EXPL_NOTE + "Tens of thousands of streams x partitions per run; the reader position at each callback checks 'delivered as soon as complete'.",
            TRUST + " Declared box sizes above 16 MiB are not generated (allocation from a 4-byte field is noted in DESIGN).", "DESIGN.md §7 C18"),
  "C12": _t("rapid property test; cue validity predicate (both readings of the clipping rule) + expected per-second cue list; independent TTML/vttc parsing",
@@ -54,7 +54,7 @@ TEXTS.update({
  "C13": _t("rapid property tests; exactly-one-carrier model over contiguous segment grids; own splice_info_section parser with CRC-32/MPEG-2",
            EXPL_NOTE + "Library level over thousands of grids incl. the PTS wrap; HTTP level over bundled and generated assets for three consecutive minutes.",
            TRUST, "DESIGN.md §7 C13"),
- "C11": _t("rapid property tests; round trip old + served patch == new with an independent RFC 5261 applier and canonical XML comparison; generated tree pairs for MPDDiff",
+ "C11": _t("rapid property tests; round trip old + served patch == new with an independent RFC 5261 applier and canonical XML comparison; generated tree pairs for MPDDiff; thorough tier adds coverage-guided fuzzing of the tree generator (FuzzC11Trees via rapid.MakeFuzz)",
            EXPL_NOTE + "HTTP pairs cover additions, removals, repeat-count changes, wraps, period changes, 425 and 410; thousands of generated id-carrying trees for the diff itself.",
            TRUST + " internal/xmlpatch is the harness's own applier; one open known finding (KF-C11-base-mismatch).", "DESIGN.md §7 C11"),
  "C10": _t("rapid property test; round trip MPD kid -> init kid -> licence/CPIX key -> decrypt -> clear segment (differential with the DRM-free response)",
@@ -69,9 +69,9 @@ TEXTS.update({
  "C07": _t("rapid-generated request multisets (MPD, init, media, subtitles, patch, pages, ingest API) over a pool of 38 URL options; differential between a fresh instance, the long-running shared instance (permuted order, repeated), a cache-loaded instance and 2-16 concurrent workers; race-detector build",
            EXPL_NOTE + "Oracle: (status, content type, body hash) per (URL, nowMS) is identical everywhere; any race report or process death is a violation.",
            TRUST + " Interleavings are sampled by the Go scheduler on 16 cores, not enumerated: race freedom is evidenced, not established.", "DESIGN.md §7 C07"),
- "C08": _t("rapid hostile-request generation against a panic-transparent copy of the router (chi.Walk); validity predicate (no panic, terminates, deliberate status, 4xx/404 classes)",
+ "C08": _t("rapid hostile-request generation against a panic-transparent copy of the router (chi.Walk) and box-level mutation of uploads to the receiver (hook); validity predicate (no panic, terminates, deliberate status, 4xx/404 classes, process survives, service continues); thorough tier adds coverage-guided fuzzing of the request generator (FuzzC08Server via rapid.MakeFuzz)",
            EXPL_NOTE + "Tens of thousands of requests per run over every URL key x hostile value, singly and pairwise, all endpoints and methods; panics are reported with value and first livesim2 frame.",
-           TRUST + " /debug, /metrics and the external /player proxy are excluded; upload bodies above 16 MiB declared size are not generated.", "DESIGN.md §7 C08"),
+           TRUST + " /debug, /metrics and the external /player proxy are excluded; upload bodies: declared sizes 16 MiB..4 GiB and table counts above 10^6 are cut (known finding KF-C08-rx-declared-counts); processes run under a 6 GiB address-space limit.", "DESIGN.md §7 C08, §13, §14.2"),
  "C17": _t("rapid-generated upload interleavings with an invariant evaluated after every upload (hook VerifQuiesce as observation point); bounded enumeration of all merges for 2x4 in the thorough tier",
            EXPL_NOTE + "Schedules in order, with gaps, duplicates, shuffled, late tracks, windows smaller and larger than the run, plus a catch-up suffix for bounded progress.",
            TRUST + " verif_hooks.go (build tag verif); unshifted uploads only; two open known findings (stragglers, fast track deletes listed segments).", "DESIGN.md §7 C17"),
